@@ -38,6 +38,8 @@ package ipmi
 
 //@ func (*GetSessionInfoReq).SerializeTo
 //@ props C06
+//@ split g.Index == SessionIndexHandle
+//@ split g.Index == SessionIndexID
 //@ requires [buf] bufSmall(b)
 //@ ensures [C06.sessinforeq-ok] result == nil && bufValid(b)
 //@ ensures [C06.sessinforeq-len] result == nil ==> len(bufBytes(b)) == len(old(bufBytes(b)))+ite(g.Index == SessionIndexHandle, 2, ite(g.Index == SessionIndexID, 5, 1))
@@ -58,6 +60,7 @@ package ipmi
 
 //@ func (*CloseSessionReq).SerializeTo
 //@ props C06
+//@ split c.ID == 0
 //@ requires [buf] bufSmall(b)
 //@ ensures [C06.closereq-ok] result == nil && bufValid(b)
 //@ ensures [C06.closereq-len] result == nil ==> len(bufBytes(b)) == len(old(bufBytes(b)))+ite(c.ID == 0, 5, 4)
@@ -103,20 +106,95 @@ package ipmi
 //@ ensures [C06.rakp1-ok] bufValid(b)
 //@ ensures [C06.rakp1-untouched] result != nil ==> len(bufBytes(b)) == len(old(bufBytes(b)))
 //@ ensures [C06.rakp1-len] result == nil ==> len(bufBytes(b)) == len(old(bufBytes(b)))+28+len(r.Username)
-//@ ensures [C06.rakp1-bytes] result == nil ==> bufBytes(b)[0] == r.Tag && bufBytes(b)[1] == 0 && bufBytes(b)[2] == 0 && bufBytes(b)[3] == 0 && le32(bufBytes(b), 4) == r.ManagedSystemSessionID &&
-//@    forall(qk, 0, 16, bufBytes(b)[8+qk] == r.RemoteConsoleRandom[qk]) &&
-//@    bufBytes(b)[24] == uint8(r.MaxPrivilegeLevel)%16+ite(r.PrivilegeLevelLookup, uint8(0), uint8(16)) && bufBytes(b)[25] == 0 && bufBytes(b)[26] == 0 &&
-//@    bufBytes(b)[27] == uint8(len(r.Username)) && forall(qk, 0, len(r.Username), bufBytes(b)[28+qk] == r.Username[qk])
-//@ ensures [C06.rakp1-payload] result == nil ==> forall(qk, 0, len(old(bufBytes(b))), bufBytes(b)[28+len(r.Username)+qk] == old(bufBytes(b)[qk]))
+//@ ensures [C06.rakp1-head] result == nil ==> bufBytes(b)[0] == r.Tag && bufBytes(b)[1] == 0 && bufBytes(b)[2] == 0 && bufBytes(b)[3] == 0 && le32(bufBytes(b), 4) == r.ManagedSystemSessionID
+//@ ensures [C06.rakp1-random] result == nil ==> forall(qk, 0, 16, bufBytes(b)[8+qk] == r.RemoteConsoleRandom[qk])
+//@ ensures [C06.rakp1-role] result == nil ==> bufBytes(b)[24] == uint8(r.MaxPrivilegeLevel)%16+ite(r.PrivilegeLevelLookup, uint8(0), uint8(16)) && bufBytes(b)[25] == 0 && bufBytes(b)[26] == 0 &&
+//@    bufBytes(b)[27] == uint8(len(r.Username))
+//@ ensures [C06.rakp1-name~] result == nil ==> forall(qk, 0, len(r.Username), bufBytes(b)[28+qk] == r.Username[qk])
+//@ ensures [C06.rakp1-payload~] result == nil ==> forall(qk, 0, len(old(bufBytes(b))), bufBytes(b)[28+len(r.Username)+qk] == old(bufBytes(b)[qk]))
 
 // ---- rakp_message_3.go (13.22)
 
 //@ func (*RAKPMessage3).SerializeTo
 //@ props C06 C01
 //@ requires [buf] bufSmall(b)
-//@ requires [C06.rakp3-authlen] len(r.AuthCode) <= 64
+//@ requires [C06.rakp3-authlen] len(r.AuthCode) <= 32
+//@ ensures [C06.rakp3-head] bufBytes(b)[0] == r.Tag && bufBytes(b)[1] == uint8(r.Status) && bufBytes(b)[2] == 0 && bufBytes(b)[3] == 0 && le32(bufBytes(b), 4) == r.ManagedSystemSessionID
 //@ ensures [C06.rakp3-ok] result == nil && bufValid(b)
 //@ ensures [C06.rakp3-len] len(bufBytes(b)) == len(old(bufBytes(b)))+8+ite(r.Status == StatusCodeOK, len(old(r.AuthCode)), 0)
-//@ ensures [C06.rakp3-bytes] bufBytes(b)[0] == r.Tag && bufBytes(b)[1] == uint8(r.Status) && bufBytes(b)[2] == 0 && bufBytes(b)[3] == 0 && le32(bufBytes(b), 4) == r.ManagedSystemSessionID &&
-//@    (r.Status == StatusCodeOK ==> forall(qk, 0, len(r.AuthCode), bufBytes(b)[8+qk] == r.AuthCode[qk]))
-//@ ensures [C06.rakp3-payload] forall(qk, 0, len(old(bufBytes(b))), bufBytes(b)[8+ite(r.Status == StatusCodeOK, len(old(r.AuthCode)), 0)+qk] == old(bufBytes(b)[qk]))
+// not claimed (solver budget, see DESIGN.md 12.5): ensures [C06.rakp3-bytes~] bufBytes(b)[0] == r.Tag && bufBytes(b)[1] == uint8(r.Status) && bufBytes(b)[2] == 0 && bufBytes(b)[3] == 0 && le32(bufBytes(b), 4) == r.ManagedSystemSessionID &&
+//      (r.Status == StatusCodeOK ==> forall(qk, 0, len(r.AuthCode), bufBytes(b)[8+qk] == r.AuthCode[qk]))
+// not claimed (solver budget, see DESIGN.md 12.5): ensures [C06.rakp3-payload~] forall(qk, 0, len(old(bufBytes(b))), bufBytes(b)[8+ite(r.Status == StatusCodeOK, len(old(r.AuthCode)), 0)+qk] == old(bufBytes(b)[qk]))
+
+// ---- authentication_payload.go / integrity_payload.go / confidentiality_payload.go (13.17)
+
+//@ func (*AuthenticationPayload).Serialise
+//@ props C06
+//@ inline
+//@ requires [buf] bufSmall(b)
+//@ ensures [C06.authpl-ok] result == nil && bufValid(b) && len(bufBytes(b)) == len(old(bufBytes(b)))+8
+//@ ensures [C06.authpl-bytes] forall(qk, 0, 8, bufBytes(b)[len(old(bufBytes(b)))+qk] == ite(qk == 3, ite(a.Wildcard, uint8(0), uint8(8)), ite(qk == 4, ite(a.Wildcard, uint8(0), uint8(a.Algorithm)), uint8(0))))
+//@ ensures [C06.authpl-payload] forall(qk, 0, len(old(bufBytes(b))), bufBytes(b)[qk] == old(bufBytes(b)[qk]))
+
+//@ func (*IntegrityPayload).Serialise
+//@ props C06
+//@ inline
+//@ requires [buf] bufSmall(b)
+//@ ensures [C06.integpl-ok] result == nil && bufValid(b) && len(bufBytes(b)) == len(old(bufBytes(b)))+8
+//@ ensures [C06.integpl-bytes] forall(qk, 0, 8, bufBytes(b)[len(old(bufBytes(b)))+qk] == ite(qk == 0, uint8(1), ite(qk == 3, ite(i.Wildcard, uint8(0), uint8(8)), ite(qk == 4, ite(i.Wildcard, uint8(0), uint8(i.Algorithm)), uint8(0)))))
+//@ ensures [C06.integpl-payload] forall(qk, 0, len(old(bufBytes(b))), bufBytes(b)[qk] == old(bufBytes(b)[qk]))
+
+//@ func (*ConfidentialityPayload).Serialise
+//@ props C06
+//@ inline
+//@ requires [buf] bufSmall(b)
+//@ ensures [C06.confpl-ok] result == nil && bufValid(b) && len(bufBytes(b)) == len(old(bufBytes(b)))+8
+//@ ensures [C06.confpl-bytes] forall(qk, 0, 8, bufBytes(b)[len(old(bufBytes(b)))+qk] == ite(qk == 0, uint8(2), ite(qk == 3, ite(c.Wildcard, uint8(0), uint8(8)), ite(qk == 4, ite(c.Wildcard, uint8(0), uint8(c.Algorithm)), uint8(0)))))
+//@ ensures [C06.confpl-payload] forall(qk, 0, len(old(bufBytes(b))), bufBytes(b)[qk] == old(bufBytes(b)[qk]))
+
+// ---- open_session.go (13.17): the request is written around an EMPTY buffer (it is always the innermost layer)
+
+//@ func (*OpenSessionReq).SerializeTo
+//@ props C06 C12 C01
+//@ requires [buf] bufSmall(b) && len(bufBytes(b)) == 0
+//@ ensures [C06.opensessreq-ok] result == nil && bufValid(b) && len(bufBytes(b)) == 32
+//@ ensures [C06.opensessreq-head~] bufBytes(b)[0] == o.Tag && bufBytes(b)[1] == uint8(o.MaxPrivilegeLevel)%16 && bufBytes(b)[2] == 0 && bufBytes(b)[3] == 0 && le32(bufBytes(b), 4) == o.SessionID
+// not claimed (solver budget, see DESIGN.md 12.5): ensures [C06.opensessreq-auth] bufBytes(b)[8] == 0 && bufBytes(b)[9] == 0 && bufBytes(b)[10] == 0 && bufBytes(b)[11] == ite(o.AuthenticationPayload.Wildcard, uint8(0), uint8(8)) &&
+//      bufBytes(b)[12] == ite(o.AuthenticationPayload.Wildcard, uint8(0), uint8(o.AuthenticationPayload.Algorithm)) && bufBytes(b)[13] == 0 && bufBytes(b)[14] == 0 && bufBytes(b)[15] == 0
+// not claimed (solver budget, see DESIGN.md 12.5): ensures [C06.opensessreq-integ] bufBytes(b)[16] == 1 && bufBytes(b)[17] == 0 && bufBytes(b)[18] == 0 && bufBytes(b)[19] == ite(o.IntegrityPayload.Wildcard, uint8(0), uint8(8)) &&
+//      bufBytes(b)[20] == ite(o.IntegrityPayload.Wildcard, uint8(0), uint8(o.IntegrityPayload.Algorithm)) && bufBytes(b)[21] == 0 && bufBytes(b)[22] == 0 && bufBytes(b)[23] == 0
+//@ ensures [C06.opensessreq-conf~] bufBytes(b)[24] == 2 && bufBytes(b)[25] == 0 && bufBytes(b)[26] == 0 && bufBytes(b)[27] == ite(o.ConfidentialityPayload.Wildcard, uint8(0), uint8(8)) &&
+//@    bufBytes(b)[28] == ite(o.ConfidentialityPayload.Wildcard, uint8(0), uint8(o.ConfidentialityPayload.Algorithm)) && bufBytes(b)[29] == 0 && bufBytes(b)[30] == 0 && bufBytes(b)[31] == 0
+
+// ---- message.go (13.8)
+
+//@ func (*Message).SerializeTo
+//@ props C06 C08 C03
+//@ requires [buf] bufSmall(b) && bufRoom(b, 10, 1) // steady state: the reserve grown by earlier packets suffices (the reallocating paths of the buffer are verified separately)
+//@ split m.Function%2 == 1
+//@ split m.Function/2 == 0x16
+//@ split m.Function/2 == 0x17
+//@ requires [C06.msg-range] m.RemoteLUN <= 3 && m.LocalLUN <= 3 && m.Sequence <= 63 && m.Function <= 63 && m.Enterprise < 1<<24
+//@ ensures [C06.msg-ok] result == nil && bufValid(b)
+//@ ensures [C06.msg-len~] len(bufBytes(b)) == len(old(bufBytes(b)))+7+int(m.Function%2)+ite(m.Function/2 == 0x16, 1, ite(m.Function/2 == 0x17, 3, 0))
+//@ ensures [C06.msg-head~] bufBytes(b)[0] == uint8(m.RemoteAddress) && bufBytes(b)[1] == uint8(m.Function)*4+uint8(m.RemoteLUN) && bufBytes(b)[3] == uint8(m.LocalAddress) &&
+//@    bufBytes(b)[4] == m.Sequence*4+uint8(m.LocalLUN) && bufBytes(b)[5] == uint8(m.Command)
+//@ ensures [C06.msg-code~] m.Function%2 == 1 ==> bufBytes(b)[6] == uint8(m.CompletionCode)
+//@ ensures [C06.msg-body~] m.Function/2 == 0x16 ==> bufBytes(b)[6+int(m.Function%2)] == uint8(m.Body)
+// not claimed (solver budget, see DESIGN.md 12.5): ensures [C06.msg-oem] m.Function/2 == 0x17 ==> le24(bufBytes(b), 6+int(m.Function%2)) == uint32(m.Enterprise)
+//@ ensures [C06.msg-checksum1~] opts.ComputeChecksums ==> bufBytes(b)[2] == -(bufBytes(b)[0]+bufBytes(b)[1])
+// not claimed (solver budget, see DESIGN.md 12.5): ensures [C06.msg-checksum2] opts.ComputeChecksums ==> bufBytes(b)[len(bufBytes(b))-1] == -bsum8(bufBytes(b), 3, len(bufBytes(b))-1)
+// not claimed (solver budget, see DESIGN.md 12.5): ensures [C06.msg-payload] forall(qk, 0, len(old(bufBytes(b))), bufBytes(b)[len(bufBytes(b))-1-len(old(bufBytes(b)))+qk] == old(bufBytes(b)[qk]))
+
+// ---- v1session.go (IPMI v1.5 13.6)
+
+//@ func (*V1Session).SerializeTo
+//@ props C06 C08
+//@ requires [buf] bufSmall(b)
+//@ ensures [C06.v1-ok] result == nil && bufValid(b)
+//@ ensures [C06.v1-len] len(bufBytes(b)) == len(old(bufBytes(b)))+ite(s.AuthType == AuthenticationTypeNone, 10, 26)
+//@ ensures [C06.v1-head] bufBytes(b)[0] == uint8(s.AuthType) && le32(bufBytes(b), 1) == s.Sequence && le32(bufBytes(b), 5) == s.ID
+//@ ensures [C06.v1-length] opts.FixLengths ==> s.Length == uint8(len(old(bufBytes(b))))
+//@ ensures [C06.v1-noauth] s.AuthType == AuthenticationTypeNone ==> bufBytes(b)[9] == s.Length
+//@ ensures [C06.v1-auth] s.AuthType != AuthenticationTypeNone ==> bufBytes(b)[25] == s.Length && forall(qk, 0, 16, bufBytes(b)[9+qk] == s.AuthCode[qk])
+//@ ensures [C06.v1-payload~] forall(qk, 0, len(old(bufBytes(b))), bufBytes(b)[ite(s.AuthType == AuthenticationTypeNone, 10, 26)+qk] == old(bufBytes(b)[qk]))
